@@ -219,7 +219,9 @@ func handleObjectWithAssociation(metaBkt *bbolt.Bucket, diff *CountersDiff, curr
 		}
 
 		st := objectStatus(metaCursor, target, currEpoch)
-		if st == statusTombstoned {
+		// an expired target is reported as expired whatever its marks: look at
+		// the tombstone mark itself too, the lock would make it available again
+		if st == statusTombstoned || inGarbage(metaCursor, target) == statusTombstoned {
 			return logicerr.Wrap(apistatus.ErrObjectAlreadyRemoved)
 		}
 
